@@ -3,8 +3,9 @@ From Coq Require Import List String.
 From VQ.Gen Require Import w_lq.
 Import ListNotations.
 Open Scope string_scope.
-Lemma pin_w_lq : w_lq =
+Definition pinned_w_lq : list string :=
   ["LatentQuantize.forward:loss:backward()";
    "LatentQuantize.forward:self.in_place_codebook_optimizer:step()";
    "LatentQuantize.forward:self.in_place_codebook_optimizer:zero_grad()"].
+Lemma pin_w_lq : w_lq = pinned_w_lq.
 Proof. reflexivity. Qed.
